@@ -223,6 +223,10 @@ C16History(eager, lz) ==
                           [] OTHER -> eager.res.v
               IN h.ok /\ ValEq(h.v, ev) /\ h.pa = h.pb)
 
+\* C09  Pointer over another stream (stream=...): that stream is where the member is processed, and it is put back where it stood.
+\* x = [before, after: position of the other stream around the call, at: where the member started on it, want: the target offset]
+C09AltStream(call, x) == Tri(call.res.ok, x.after = x.before /\ x.at = x.want)
+
 \* C17  results do not depend on call history, schedule or entry point.
 \* identical calls (same construct, operation, input, keywords) at two points of a history / in a schedule and alone
 C17Same(a, b) == Tri(TRUE, a.res.ok = b.res.ok /\ a.res.err = b.res.err /\ (a.res.ok => ValEq(a.res.v, b.res.v) /\ a.res.p - a.start = b.res.p - b.start))
